@@ -1259,3 +1259,12 @@ LEVEL_NOTE = ('Trusted: Lean kernel; axioms ⊆ {propext, Classical.choice, Quot
               'trajectories of the three entry points.')
 TECHNIQUE = ('Lean 4 proof (heap-region invariant + induction over merge sequences; structural induction over '
              'dictionaries) + model/code correspondence (differential, incl. object identity)')
+
+
+# one compartment model through the entry points parts / composite / store / merge / template / composer (steps of one
+# layer in path order, nested steps, run-time generation), and glob children arriving with Engine(store=, initial_state=)
+from harness import dynflow as _df                      # noqa: E402
+from harness import storeinit as _si                    # noqa: E402
+from harness.mixins import add_family as _add_family    # noqa: E402
+_add_family(globals(), _df, 'dynflow', lambda case, impl: _df.oracle(case, impl, who=('values', 'published')), share=0.06)
+_add_family(globals(), _si, 'storeinit', _si.oracle, share=0.03)
